@@ -24,6 +24,22 @@ CHECKS = {
             "Trusted: AVM frame rules (callsub/retsub/proto/frame_dig/frame_bury) and the source semantics of calls in Src.lean; whole-program "
             "simulation for calls is not yet certificate-checked (C01's validator covers call-free routines).",
             "DESIGN.md Part II C02"),
+    "C03": ("exploration",
+            "Lean 4 theorems on the model of the scratch-slot optimiser (sound when every access to a cancelled slot is an adjacent store/load pair; counterexample for dead stores) tied to the real pass on generated graphs; option-pair differential execution of the real TEAL texts incl. stack at every routine exit",
+            "One program, every (version, scratch_slots, frame_pointers) setting under which it compiles: the real TEAL texts are executed on "
+            "the AVM spec on the same contexts and must agree in verdict, return value, effects and user-numbered slots; optimised vs "
+            "unoptimised twins must also agree in the operand stack whenever a routine is left.",
+            "Trusted: AVM spec (cancels out between the two programs except control/stack rules). One known finding (dead stores deleted by "
+            "the optimiser leave their value on the stack; pinned by the repository's own optimizer_test).",
+            "DESIGN.md Part II C03"),
+    "C15": ("proof",
+            "Lean 4 proof: Base64-VLQ and Revision-3 mappings round-trip theorems (all integer lists / all well-formed tables), annotated-line stripping theorem against the TEAL tokeniser; correspondence with the real codecs; frame-capture parts decided by differential execution of generated source files with/without source maps",
+            "Codec theorems are universal; the model is compared with the real _base64vlq_encode/_decode, R3SourceMap.to_json/from_json every "
+            "run; the parts that depend on CPython frame introspection (TEAL identical with/without map, one entry per line, marker "
+            "attribution) are decided by running generated multi-file projects in fresh processes (labelled exploration in the evidence).",
+            "Trusted: Lean kernel, TEAL tokeniser spec, tabulate layout (checked on every produced line), CPython frames/executing/algosdk as "
+            "runtime. One known finding (user file whose path contains a PyTeal-internal path fragment is misattributed).",
+            "DESIGN.md Part II C15"),
     "C10": ("proof",
             "Lean 4 proof: injectivity / requested-id / range / totality theorems on a model of assignScratchSlotsToSubroutines, correspondence on random and boundary slot layouts, marker programs executed on the AVM spec",
             "Universal theorems (any number of slots, any routine layout, any iteration order of the slot set) about the model of slot "
